@@ -18,7 +18,7 @@ import subprocess
 import sys
 
 ROOT = os.path.dirname(os.path.dirname(os.path.abspath(__file__)))
-WT = "/tmp/vet/wt"
+WT = os.environ.get("VET_WT", "/tmp/vet/wt")  # one scratch worktree per concurrent vetting run
 
 
 def sh(cmd, cwd=None, timeout=3600):
@@ -52,7 +52,7 @@ def main():
     fflag = f"--features {feats}" if feats else ""
     log = {}
     if not os.path.exists(WT):
-        os.makedirs("/tmp/vet", exist_ok=True)
+        os.makedirs(os.path.dirname(WT), exist_ok=True)
         rc, o = sh(f"git -C /repo worktree add --detach {WT} HEAD")
         assert rc == 0, o
     sh("git checkout -- . && git clean -fdq -e target", cwd=WT)
